@@ -230,7 +230,7 @@ def find_func(scope: ast.AST, name: str, raw: bool = False) -> ast.FunctionDef |
     return None
 
 
-def subst_locals(fn: ast.AST, e: ast.AST, depth: int = 3) -> ast.AST:
+def subst_locals(fn: ast.AST, e: ast.AST, depth: int = 3, allow_calls: bool = False) -> ast.AST:
     """`e` with local names replaced by their definition when the name is assigned exactly once in `fn`
     (a plain `x = <expr>` / `x: T = <expr>`), is not a parameter, and the definition contains no call:
     `file_pos = bucket + self.offset; seek(file_pos)` reads as `seek(bucket + self.offset)`"""
@@ -261,11 +261,12 @@ def subst_locals(fn: ast.AST, e: ast.AST, depth: int = 3) -> ast.AST:
             if len(ds) != 1 or ds[0] is None:
                 return node
             val = ds[0].value
-            if any(isinstance(x, (ast.Call, ast.Await, ast.IfExp, ast.NamedExpr)) for x in ast.walk(val)):
+            banned = (ast.Await, ast.IfExp, ast.NamedExpr) if allow_calls else (ast.Call, ast.Await, ast.IfExp, ast.NamedExpr)
+            if any(isinstance(x, banned) for x in ast.walk(val)):
                 return node
             import copy as _copy
             from .normalise import clone
-            return subst_locals(fn, clone(val), depth - 1)
+            return subst_locals(fn, clone(val), depth - 1, allow_calls)
     from .normalise import clone as _clone
     return T().visit(_clone(e))
 
